@@ -41,13 +41,14 @@ START = datetime.datetime(2020, 1, 1)
 
 
 def schema_text(depth):
-    lines = ['#KEY: "KEY"/_/_/_', '#site: "site"', '#root: #site/#KEY']
+    # every signed rule lists a second allowed signer (#aux / #zaux, keys under the root that nobody holds): signing-constraint lists have several entries
+    lines = ['#KEY: "KEY"/_/_/_', '#site: "site"', '#root: #site/#KEY', '#aux: #site/"aux"/_/#KEY <= #root', '#zaux: #site/"zaux"/_/#KEY <= #root']
     prev = '#root'
     for k in range(1, depth + 1):
-        lines.append(f'#l{k}: #site/"l{k}"/id{k}/#KEY <= {prev}')
+        lines.append(f'#l{k}: #site/"l{k}"/id{k}/#KEY <= #aux | {prev} | #zaux')
         prev = f'#l{k}'
     # the data name carries the identity (idK) of the key that may sign it: a pattern shared between packet and key rule
-    lines.append(f'#data: #site/"data"/id{depth}/x <= {prev}' if depth >= 1 else f'#data: #site/"data"/_/x <= {prev}')
+    lines.append(f'#data: #site/"data"/id{depth}/x <= #zaux | {prev} | #aux' if depth >= 1 else f'#data: #site/"data"/_/x <= {prev}')
     return '\n'.join(lines) + '\n'
 
 
@@ -113,7 +114,7 @@ class Hierarchy:
 
 
 DEVIATIONS = ['none', 'none', 'missing-signature-value', 'signature-type-mismatch', 'mismatched-identity', 'hmac-with-public-key', 'wrong-issuer-level', 'forged-signature', 'substituted-key', 'cert-timeout', 'cert-nack', 'unsigned',
-              'no-key-locator', 'locator-loop', 'foreign-hierarchy', 'digest-signed', 'keychain-holds-unanchored-cert']
+              'no-key-locator', 'locator-loop', 'foreign-hierarchy', 'digest-signed', 'keychain-holds-unanchored-cert', 'forged-cert-served-on-second-request']
 _KC = {}
 
 
@@ -275,6 +276,18 @@ def build_case(rng, depth, dev, link=None):
         if rng.random() < 0.5:
             H.extra = {tuple(bytes(c) for c in own.name): bytes(own.data)}
         H.keychain = kc
+    elif dev == 'forged-cert-served-on-second-request':
+        # the network loses (or Nacks) the first Interest for one certificate and answers later ones - with a certificate whose
+        # signature does not verify / that is not signed at all: whether or not the validator asks again, no valid chain exists
+        valid = False
+        lvl = min(link, depth)
+        if rng.random() < 0.5:
+            H.cert_wires[lvl] = flip_sig(H.cert_wires[lvl])
+        else:
+            r = rc.strict_data(H.cert_wires[lvl])
+            H.cert_wires[lvl] = rc.make_data(r['name'], content=r['content'], content_type=2, freshness=3600000, sig_type=4,
+                                             key_name=H.cert_names[lvl - 1], sig_value=bytes(32))
+        H.flaky = {tuple(H.cert_names[lvl]): rng.choice(['drop', 'nack'])}
     elif dev == 'foreign-hierarchy':
         valid = False
         H2 = Hierarchy(rng, depth, '%04x' % rng.getrandbits(16))
@@ -300,6 +313,7 @@ class CertServer:
         self.unserved = set()
         self.nacked = set()
         self.requests = []
+        self.flaky = {}
         face.on_send = self.on_send
 
     def on_send(self, wire):
@@ -312,6 +326,10 @@ class CertServer:
         if name in self.unserved:
             return
         loop = asyncio.get_running_loop()
+        if name in self.flaky and self.requests.count(name) == 1:
+            if self.flaky[name] == 'nack':
+                loop.call_later(0.01, self.face.deliver_task, rc.make_lp(fragment=wire, nack_reason=50))
+            return
         if name in self.nacked:
             loop.call_later(0.01, self.face.deliver_task, rc.make_lp(fragment=wire, nack_reason=150))
             return
@@ -347,6 +365,7 @@ def check_single(ctx, rng):
             await asyncio.sleep(0)
             srv = CertServer(face)
             srv.served, srv.unserved, srv.nacked = served, unserved, nacked
+            srv.flaky = getattr(H, 'flaky', {})
             checker = make_checker(depth, i // 3)
             storage = MemoryKeyStorage() if i % 2 else None
             try:
@@ -544,6 +563,12 @@ def make_checker(depth, variant):
     from ndn.app_support.light_versec import binary as bny
     m = bny.LvsModel.parse(ck.save())
     m.symbols = []
+    if variant % 4 == 3:
+        # the binary format prescribes no order for a node's signing constraints (nor for its edges): the same model as another
+        # compiler may write it
+        for nd in m.nodes:
+            nd.sign_cons = list(nd.sign_cons)[::-1]
+            nd.v_edges = list(nd.v_edges)[::-1]
     return Checker.load(bytes(m.encode()), {})
 
 
